@@ -50,6 +50,7 @@ def labelP : P Label := do
   | "end" => do let id ← nat; let f ← bool; let r ← bool; let t ← nat; pure (.endA id f r t)
   | "cbin" => do let s ← nat; let a ← nat; let t ← nat; pure (.cbIn s a t)
   | "cbout" => do let s ← nat; let a ← nat; let t ← nat; pure (.cbOut s a t)
+  | "env" => pure .envMove
   | "other" => pure .other
   | _ => fail
 
